@@ -169,6 +169,11 @@ func checkC07(c *Ctx, r *Report) {
 	r.rule("C07.R4", "the unknown subscriber / rating group edge returns without writing any balance", 1)
 	r.rule("C07.R5", "the balance write-back dominates the answer (store before acknowledge)", 1)
 
+	abmfRules(c, r, "C07.R1", "C07.R2", "C07.R3", "C07.R4", "C07.R5")
+}
+
+// abmfRules runs the account-server rules under the given rule ids ("" = skip).
+func abmfRules(c *Ctx, r *Report, R1, R2, R3, R4, R5 string) {
 	m := buildAbmfModel(c)
 	fe := m.fe
 	f := m.f
@@ -262,13 +267,13 @@ func checkC07(c *Ctx, r *Report) {
 		if ins, ok := lf.val.(ssa.Instruction); ok {
 			pos = posOf(c, ins)
 		}
-		r.check(bad == "", "C07.R2", k, pos, fmt.Sprintf("written balance = %s = %s", form, strings.Join(sortedKeys(names), " / ")), bad)
+		r.check(bad == "", R2, k, pos, fmt.Sprintf("written balance = %s = %s", form, strings.Join(sortedKeys(names), " / ")), bad)
 	}
 	r.count("balance_reaching_definitions", len(leaves))
 
 	// ---- R1 grant = min(request, balance)
 	if granted == nil {
-		r.viol("C07.R1", key+"|grant", c.rel(f.Pos()), "no Granted-Service-Unit value is written in the reservation branch")
+		r.viol(R1, key+"|grant", c.rel(f.Pos()), "no Granted-Service-Unit value is written in the reservation branch")
 	} else {
 		for i, lf := range leavesOf(stripConv(granted)) {
 			form := fe.eval(lf.val)
@@ -280,18 +285,18 @@ func checkC07(c *Ctx, r *Report) {
 			switch {
 			case m.reqAtom(form, ".RequestedServiceUnit.CCTotalOctets"):
 				rel := relOnEdge(fe, form, q0, lf.from, lf.at)
-				r.check(rel["<="], "C07.R1", k, pos, "grant = request on an edge where request <= balance", "the full request is granted on an edge where it may exceed the balance: the balance goes negative")
+				r.check(rel["<="], R1, k, pos, "grant = request on an edge where request <= balance", "the full request is granted on an edge where it may exceed the balance: the balance goes negative")
 			case polyEqual(form, q0):
 				// find the request form: any RequestedServiceUnit atom compared with q0
 				rel := m.relReqVsBalance(lf)
-				r.check(rel[">="], "C07.R1", k, pos, "grant = balance on an edge where request >= balance", "the whole balance is granted although the request may be smaller than the balance")
+				r.check(rel[">="], R1, k, pos, "grant = balance on an edge where request >= balance", "the whole balance is granted although the request may be smaller than the balance")
 			default:
-				r.viol("C07.R1", k, pos, "the grant "+form.String()+" is neither the request nor the balance: it is not min(request, balance)")
+				r.viol(R1, k, pos, "the grant "+form.String()+" is neither the request nor the balance: it is not min(request, balance)")
 			}
 		}
 		// final unit indication
 		if fuiVal == nil {
-			r.viol("C07.R1", key+"|final-unit", c.rel(f.Pos()), "no Final-Unit-Indication member is set in the reservation answer")
+			r.viol(R1, key+"|final-unit", c.rel(f.Pos()), "no Final-Unit-Indication member is set in the reservation answer")
 		} else {
 			for i, lf := range leavesOf(stripConv(fuiVal)) {
 				k := fmt.Sprintf("%s|final-unit definition #%d", key, i+1)
@@ -301,7 +306,7 @@ func checkC07(c *Ctx, r *Report) {
 					pos = posOf(c, ins)
 				}
 				if isNilConst(lf.val) {
-					r.check(rel["<="], "C07.R1", k, pos, "no final-unit indication on an edge where request <= balance", "the final-unit indication is omitted on an edge where the request may exceed the balance")
+					r.check(rel["<="], R1, k, pos, "no final-unit indication on an edge where request <= balance", "the final-unit indication is omitted on an edge where the request may exceed the balance")
 				} else {
 					// must be a TERMINATE indication
 					term := false
@@ -312,7 +317,7 @@ func checkC07(c *Ctx, r *Report) {
 							}
 						}
 					}
-					r.check(rel[">"] && term, "C07.R1", k, pos, "final-unit indication TERMINATE on an edge where request > balance", "a final-unit indication is sent although the request does not exceed the balance (or it is not TERMINATE)")
+					r.check(rel[">"] && term, R1, k, pos, "final-unit indication TERMINATE on an edge where request > balance", "a final-unit indication is sent although the request does not exceed the balance (or it is not TERMINATE)")
 				}
 			}
 		}
@@ -349,7 +354,7 @@ func checkC07(c *Ctx, r *Report) {
 			}
 		}
 		ok := len(echo) > 0 && mustPassBefore(f, echo, m.marshal)
-		r.check(ok, "C07.R3", key+"|echo "+fld[0], posOf(c, m.marshal), "assigned from the request on every path to Marshal",
+		r.check(ok, R3, key+"|echo "+fld[0], posOf(c, m.marshal), "assigned from the request on every path to Marshal",
 			"a path reaches Marshal(&answer) without "+fld[0]+" having been copied from the request (e.g. REFUND_ACCOUNT / CHECK_BALANCE / PRICE_ENQUIRY): the client cannot correlate the answer")
 	}
 
@@ -381,10 +386,10 @@ func checkC07(c *Ctx, r *Report) {
 				}
 			}
 		}
-		r.check(ok, "C07.R4", key+"|unknown-account", posOf(c, m.putOne), "the write-back is dominated by the account-found edge", "the balance write-back is reachable when the account document was not found: a request for an unknown subscriber or rating group creates/changes a balance")
+		r.check(ok, R4, key+"|unknown-account", posOf(c, m.putOne), "the write-back is dominated by the account-found edge", "the balance write-back is reachable when the account document was not found: a request for an unknown subscriber or rating group creates/changes a balance")
 	}
 	// ---- R5
-	r.check(instrDominates(m.putOne, m.writeTo), "C07.R5", key+"|store-before-answer", posOf(c, m.writeTo), "RestfulAPIPutOne dominates the answer's WriteTo", "the answer can be sent before (or without) the balance being written back")
+	r.check(instrDominates(m.putOne, m.writeTo), R5, key+"|store-before-answer", posOf(c, m.writeTo), "RestfulAPIPutOne dominates the answer's WriteTo", "the answer can be sent before (or without) the balance being written back")
 }
 
 // relReqVsBalance: relation request ? balance known on the leaf's edge, for
